@@ -106,12 +106,19 @@ func fromPID(p *actor.PID) PID {
 	return PID{p.Address, p.ID}
 }
 
+var bigData = strings.Repeat("B", 600*1024) // two of these in one batch exceed a megabyte
+
 func payload(typ, data string) any {
+	if data == "big" {
+		data = bigData
+	}
 	switch typ {
 	case "remote.TestMessage":
 		return &remote.TestMessage{Data: []byte(data)}
 	case "actor.Ping":
 		return &actor.Ping{From: &actor.PID{Address: data, ID: "x"}}
+	case "actor.PID": // the one type the library itself registers with remote.RegisterType
+		return &actor.PID{Address: data, ID: "payload"}
 	}
 	panic("unknown model type " + typ)
 }
@@ -121,7 +128,7 @@ func encodeData(typ, data string) []byte {
 		return []byte{0xff, 0xff, 0xff}
 	}
 	t := typ
-	if t != "remote.TestMessage" && t != "actor.Ping" {
+	if t != "remote.TestMessage" && t != "actor.Ping" && t != "actor.PID" {
 		t = "remote.TestMessage"
 	}
 	b, err := proto.Marshal(payload(t, data).(proto.Message))
@@ -137,20 +144,33 @@ func describe(m any) (string, string) {
 		if len(x.Data) == 0 {
 			return "remote.TestMessage", "empty"
 		}
-		return "remote.TestMessage", string(x.Data)
+		return "remote.TestMessage", short(string(x.Data))
 	case *actor.Ping:
 		if x.From == nil {
 			return "actor.Ping", "empty"
 		}
-		return "actor.Ping", x.From.Address
+		return "actor.Ping", short(x.From.Address)
+	case *actor.PID:
+		if x.Address == "" {
+			return "actor.PID", "empty"
+		}
+		return "actor.PID", short(x.Address)
 	}
 	return reflect.TypeOf(m).String(), "?"
 }
 
+func short(d string) string {
+	if d == bigData {
+		return "big"
+	}
+	return d
+}
+
 type recProc struct {
-	pid *actor.PID
-	mu  *sync.Mutex
-	log *[]Delivery
+	pid  *actor.PID
+	mu   *sync.Mutex
+	log  *[]Delivery
+	keep *[]any // the message objects handed over (a receiver may hold on to what it was given)
 }
 
 func (r *recProc) Start()                  {}
@@ -161,13 +181,17 @@ func (r *recProc) Send(pid *actor.PID, msg any, sender *actor.PID) {
 	t, d := describe(msg)
 	r.mu.Lock()
 	*r.log = append(*r.log, Delivery{Target: fromPID(pid), Type: t, Data: d, Sender: fromPID(sender)})
+	if r.keep != nil {
+		*r.keep = append(*r.keep, msg)
+	}
 	r.mu.Unlock()
 }
 
 type rig struct {
-	e   *actor.Engine
-	mu  sync.Mutex
-	log []Delivery
+	e    *actor.Engine
+	mu   sync.Mutex
+	log  []Delivery
+	keep []any
 }
 
 func newRig(ids []string) *rig {
@@ -177,10 +201,10 @@ func newRig(ids []string) *rig {
 	}
 	r := &rig{e: e}
 	for _, id := range ids {
-		e.SpawnProc(&recProc{pid: actor.NewPID(e.Address(), id), mu: &r.mu, log: &r.log})
+		e.SpawnProc(&recProc{pid: actor.NewPID(e.Address(), id), mu: &r.mu, log: &r.log, keep: &r.keep})
 	}
 	// a real stream writer: inbound messages may be addressed to stream/<address> like to any other process
-	rp := &recProc{mu: &r.mu, log: &r.log}
+	rp := &recProc{mu: &r.mu, log: &r.log, keep: &r.keep}
 	remote.VerifSpawnWriter(e, "127.0.0.1:1", rp.Send)
 	return r
 }
@@ -189,6 +213,15 @@ func (r *rig) take() []Delivery {
 	r.mu.Lock()
 	defer r.mu.Unlock()
 	out := r.log
+	// what was handed over must still be what it was: a later delivery must not change an earlier payload
+	for i, m := range r.keep {
+		if i < len(out) {
+			if t, d := describe(m); t != out[i].Type || d != out[i].Data {
+				out[i].Data = out[i].Data + " (changed to " + d + " by a later delivery)"
+			}
+		}
+	}
+	r.keep = nil
 	r.log = nil
 	if out == nil {
 		out = []Delivery{}
